@@ -165,7 +165,7 @@ func endpoints() []*Endpoint {
 				group = "prom_select_downsample_15s"
 				allowed = func(w Win, ts int64) bool { a := align15(w); return ts >= a.S && ts < a.E+15e9 }
 			}
-			quickFuncs := map[string]bool{"": true, "rate": true, "sum_over_time": true, "count_over_time": true, "last_over_time": true, "abs": true, "sum": true, "quantile_over_time": true}
+			quickFuncs := map[string]bool{"": true, "rate": true, "sum_over_time": true, "quantile_over_time": true}
 			add(&Endpoint{Name: "prom_select_" + orName(f) + "_" + reg.Name, Group: group, Items: "samples", Signal: typeMetric, Unit: 1e6,
 				Thorough: reg.Thorough || !quickFuncs[f],
 				Must:     closed, Allowed: allowed,
@@ -185,7 +185,7 @@ func endpoints() []*Endpoint {
 					group = "prom_select_downsample_15s_same_querier"
 					allowed = func(w Win, ts int64) bool { a := align15(w); return ts >= a.S && ts < a.E+15e9 }
 				}
-				quick := (f == "" || f == "rate" || f == "sum_over_time") && (reg.Name == "step0" || reg.Name == "step15s_aligned")
+				quick := (f == "" || f == "sum_over_time") && (reg.Name == "step0" || reg.Name == "step15s_aligned")
 				thoroughFuncs := map[string]bool{"": true, "rate": true, "sum_over_time": true, "count_over_time": true, "last_over_time": true, "abs": true, "sum": true, "quantile_over_time": true}
 				if !quick && !thoroughFuncs[f] {
 					continue
